@@ -44,7 +44,16 @@ def main(argv=None):
         from . import selftest
 
         return selftest.main(ns.arg, seed, ns)
-    return runner.run_check(ns.what.upper(), ns.tier, seed, workers=ns.workers, runs=ns.runs)
+    try:
+        return runner.run_check(ns.what.upper(), ns.tier, seed, workers=ns.workers, runs=ns.runs)
+    except SystemExit:
+        raise
+    except BaseException:  # noqa: BLE001 - never let a harness failure look like a verdict
+        import traceback
+
+        traceback.print_exc()
+        print("HARNESS-ERROR: the check itself failed (not a verdict about the property)")
+        return 2
 
 
 if __name__ == "__main__":
